@@ -7,7 +7,7 @@ from typing import Self
 import numpy as np
 from pydantic import ConfigDict, model_validator
 
-from ropt.config.utils import ImmutableBaseModel, normalize
+from ropt.config.utils import ImmutableBaseModel, broadcast_1d_array, normalize
 from ropt.config.validated_types import (  # noqa: TC001
     Array1D,
     Array1DInt,
@@ -53,5 +53,13 @@ class ObjectiveFunctionsConfig(ImmutableBaseModel):
     def _broadcast_and_normalize(self) -> Self:
         self._mutable()
         self.weights = normalize(self.weights)
+        if self.realization_filters is not None:
+            self.realization_filters = broadcast_1d_array(
+                self.realization_filters, "realization_filters", self.weights.size
+            )
+        if self.function_estimators is not None:
+            self.function_estimators = broadcast_1d_array(
+                self.function_estimators, "function_estimators", self.weights.size
+            )
         self._immutable()
         return self
